@@ -18,6 +18,7 @@ import itertools
 import os
 import re
 import signal
+import time
 
 from vverif import lockstep as ls
 from vverif import seq
@@ -586,12 +587,10 @@ class LogWorld(ls.World):
 
 
 def shard_cfg(ctx, shard, nshards):
-    if ctx.quick:
-        plan = ['strip'] * max(1, nshards - 4) + ['encode', 'chop', 'allow', 'deny']
-    else:
-        plan = ['strip'] * max(1, nshards - 6) + ['encode', 'encode', 'chop', 'allow', 'allow', 'deny']
-    plan = plan[-nshards:] if nshards < len(plan) else plan
-    return plan[shard % len(plan)]
+    plan = ['strip'] * max(1, nshards - 4) + ['encode', 'chop', 'allow', 'deny']
+    if nshards < 5:             # not enough processes (VERIF_JOBS): the default setting only
+        plan = ['strip'] * nshards
+    return plan[shard]
 
 
 def hname(case):
@@ -880,10 +879,11 @@ DETERMINISM_N = 12
 def run_e3(ctx):
     """Exhaustively run the tier's cases, sharded over processes (one squid instance per shard; the first DETERMINISM_N
     cases of every shard are run on a first instance and again on a second, fresh one: transcripts must be identical;
-    every violation key is confirmed by re-running its case, the first two of a shard on a fresh instance)."""
+    every violation key is confirmed by re-running its case, the first of a shard on a fresh instance)."""
     import time as _t
     ls.build_squid(ctx)
-    nshards = ctx.ncpu
+    # a case costs ~5 ms but an instance start several seconds (more when many start at once): few shards
+    nshards = max(1, min(ctx.ncpu, 6 if ctx.quick else 10))
     cfgs, per, total = plan_shards(ctx, nshards)
     t_end = ctx.t0 + ctx.deadline_s - 15
 
@@ -942,7 +942,7 @@ def run_e3(ctx):
                         continue
                     confirmed = False
                     for attempt in range(3):
-                        if len(out['violations']) < 2 or attempt > 0:
+                        if len(out['violations']) < 1 or attempt > 0:
                             fresh()
                         r2 = one(case)
                         out['replays'] += 1
@@ -982,14 +982,79 @@ def run_e3(ctx):
 
 
 def _build_e1(ctx):
-    return seq.build(ctx, 'tests/testCacheManager', ['C34_quote.cc'], name='C34q',
-                     tree_sources=['format/Quoting.cc', '../lib/rfc1738.cc'],
-                     tree_flags=['-fsanitize=undefined', '-fno-sanitize-recover=undefined'])
+    """Like seq.build(ctx, 'tests/testCacheManager', ['C34_quote.cc'], tree_sources=[Quoting.cc, rfc1738.cc]) — same objects,
+    same libraries, everything re-made from the current tree and re-linked on every run — except that the libtool shell
+    script is not run for the link itself: resolving this link set's ~40 .la files takes libtool 60-110 s here, the
+    actual link 4 s.  The g++ command libtool resolves to is cached under a key made of the libtool command line and the
+    contents of every .la file it names (the only inputs of that resolution)."""
+    import hashlib
+    import shlex
+    import subprocess
+    linkset, subdir, name = 'tests/testCacheManager', 'src', 'C34q'
+    ctx.vbuild('%s:%s' % (subdir, linkset))
+    libdirs = seq.lib_dirs_of(ctx, subdir, linkset)
+    ctx.vbuild(*(['%s:all' % d for d in libdirs] + ['%s:%s' % (subdir, linkset)]))
+    d = os.path.join(ctx.tree, subdir)
+    exe = os.path.join(ctx.objdir, name)
+    env = dict(os.environ, CCACHE_DIR=os.environ.get('VERIF_CCACHE', '/var/tmp/squid-verif/ccache'))
+    ub = ['-fsanitize=undefined', '-fno-sanitize-recover=undefined']
+    jobs = [(os.path.join(ctx.home, 'checks', 'C34_quote.cc'), os.path.join(ctx.objdir, name + '-harness.o'), []),
+            (os.path.join(d, 'format/Quoting.cc'), os.path.join(ctx.objdir, name + '-tree-Quoting.o'), ub),
+            (os.path.join(ctx.tree, 'lib/rfc1738.cc'), os.path.join(ctx.objdir, name + '-tree-rfc1738.o'), ub)]
+    objs = []
+    for src, obj, extra in jobs:
+        cmd = ['ccache', 'g++'] + seq.cxxflags(ctx, subdir) + extra + ['-I' + d, '-I' + os.path.dirname(src), '-c', src, '-o', obj]
+        r = subprocess.run(cmd, capture_output=True, text=True, env=env, cwd=d)
+        if r.returncode != 0:
+            raise HarnessError('compile failed: %s\n%s' % (src, r.stderr[-3000:]))
+        objs.append(obj)
+    toks = shlex.split(seq._link_line(ctx, subdir, linkset))
+    out = []
+    skip = False
+    for t in toks:
+        if skip:
+            skip = False
+            continue
+        if t == '-o':
+            out += ['-o', exe]
+            skip = True
+        elif t == linkset + '.o':
+            out += objs
+        elif t == '-lcppunit' or re.match(r'^tests/test[A-Za-z0-9_]*\.o$', t):
+            continue
+        else:
+            out.append(t)
+    out += seq.SAN + ['-fsanitize=undefined']
+    hsh = hashlib.sha1('\0'.join(out).encode())
+    for t in out:
+        if t.endswith('.la'):
+            with open(os.path.join(d, t), 'rb') as f:
+                hsh.update(f.read())
+    cache = os.path.join(ctx.objdir, name + '.linkcmd.' + hsh.hexdigest()[:16])
+    if os.path.exists(cache):
+        with open(cache) as f:
+            cmd = f.read()
+    else:
+        r = subprocess.run(out[:2] + ['-n'] + out[2:], capture_output=True, text=True, cwd=d, env=env)
+        lines = [l for l in r.stdout.splitlines() if l.startswith('libtool: link: ') and 'g++' in l and ' -o ' in l]
+        if r.returncode != 0 or not lines:
+            raise HarnessError('libtool could not resolve the link command: ' + (r.stdout + r.stderr)[-2000:])
+        cmd = lines[-1][len('libtool: link: '):]
+        with open(cache, 'w') as f:
+            f.write(cmd)
+    if os.path.exists(exe):
+        os.unlink(exe)
+    r = subprocess.run(cmd, shell=True, capture_output=True, text=True, cwd=d, env=env)
+    if r.returncode != 0 or not os.path.exists(exe):
+        raise HarnessError('link failed:\n' + r.stderr[-4000:])
+    return exe
 
 
 def run(ctx):
     # ---- E1 half
     exe = _build_e1(ctx)
+    ls.build_squid(ctx)
+    t0 = time.time()
     m = seq.run(ctx, exe, deadline_s=60 if ctx.quick else 420)
     vio = [Violation('e1:' + v.key, v.what, v.replay) for v in seq.violations_from(m)]
     c1 = m['counters']
@@ -998,8 +1063,10 @@ def run(ctx):
         if e1_nontrivial < 10000 or m['outcomes'].get('passed-through', 0) < 100 or c1.get('direct_function_comparisons', 0) < 10000 \
                 or c1.get('long_values', 0) < 100:
             raise HarnessError('vacuity guard (E1): %r %r' % (m['outcomes'], c1))
+    t1 = time.time()
     # ---- E3 half
     r = run_e3(ctx)
+    t2 = time.time()
     oc = r['outcomes']
     evals = r['evaluations']
     fwd = sum(v for k, v in oc.items() if k.startswith('forwarded'))
@@ -1020,6 +1087,7 @@ def run(ctx):
                   'builtin_records_lexed': r['builtin_lexed'], 'kicks': r['kicks'], 'squid_starts': r['starts'],
                   'determinism_replays': r['replays'], 'fields_per_main_record': len(main_spec()) - 2,
                   'uri_whitespace_of_shards': r['uri_whitespace_of_shards'], 'deadline_hit': r['deadline_hit']},
+           'wall_s_build_e1_e3': [round(t0 - ctx.t0, 1), round(t1 - t0, 1), round(t2 - t1, 1)],
            'e1': {'strings': m['evaluations'], 'nontrivial': e1_nontrivial, 'outcome_classes': m['outcomes'], 'counters': c1,
                   'deadline_hit': m['deadline_hit']}}
     return Result(LEVEL, cov, vio, ASSUME, [])
